@@ -32,6 +32,7 @@ type c18Case struct {
 	Settings []c18Setting
 	Nodes    []map[string]string
 	Order    []int
+	ListRev  []bool // per reconcile: the settings list is answered in reverse order (cache order is unspecified)
 }
 
 func (k c18Case) String() string {
@@ -39,7 +40,7 @@ func (k c18Case) String() string {
 	for _, x := range k.Settings {
 		s = append(s, fmt.Sprintf("%s/%s{t=%d sel=%q ref=%q}", x.NS, x.Name, x.CreatedAt, x.Selector, x.Ref))
 	}
-	return fmt.Sprintf("settings=[%s] nodes=%v order=%v", strings.Join(s, " "), k.Nodes, k.Order)
+	return fmt.Sprintf("settings=[%s] nodes=%v order=%v listReversed=%v", strings.Join(s, " "), k.Nodes, k.Order, k.ListRev)
 }
 
 func c18Selector(s string) metav1.LabelSelector {
@@ -92,6 +93,7 @@ func c18Draw(rt *rapid.T) c18Case {
 		idx[i] = i
 	}
 	k.Order = rapid.Permutation(idx).Draw(rt, "order")
+	k.ListRev = rapid.SliceOfN(rapid.Bool(), 2*n, 2*n).Draw(rt, "listReversed")
 	return k
 }
 
@@ -115,8 +117,25 @@ func runC18(k c18Case) (vs []mon.V, err error) {
 		c.Add(obj)
 	}
 	c.Advance(time.Minute)
+	step := 0
+	c.ListOrder = func(kind string, n int) []int {
+		perm := make([]int, n)
+		for i := range perm {
+			perm[i] = i
+			if kind == "ExtendedDaemonsetSettingList" && step < len(k.ListRev) && k.ListRev[step] {
+				perm[i] = n - 1 - i
+			}
+		}
+		return perm
+	}
 	for pass := 0; pass < 2; pass++ {
 		for _, i := range k.Order {
+			step = pass*len(k.Order) + 0
+			for pos, j := range k.Order {
+				if j == i {
+					step = pass*len(k.Order) + pos
+				}
+			}
 			r := c.Reconcile(sim.ActorSetting, k.Settings[i].NS, k.Settings[i].Name)
 			if r.Panic != nil {
 				add("C18/no-panic/"+panicSiteOf(r.Stack), fmt.Sprintf("setting reconcile panicked: %v", r.Panic))
@@ -148,7 +167,9 @@ func runC18(k c18Case) (vs []mon.V, err error) {
 			status[s.NS+"/"+s.Name] = o.Status
 		}
 	}
-	isValid := func(s c18Setting) bool { return status[s.NS+"/"+s.Name].Status == edsv1.ExtendedDaemonsetSettingStatusValid }
+	isValid := func(s c18Setting) bool {
+		return status[s.NS+"/"+s.Name].Status == edsv1.ExtendedDaemonsetSettingStatusValid
+	}
 	for i, s := range k.Settings {
 		st := status[s.NS+"/"+s.Name]
 		if !hasRef(s) || !usable(s) {
@@ -186,6 +207,7 @@ func runC18(k c18Case) (vs []mon.V, err error) {
 			add("C18/settings/invalid-without-conflict-error", fmt.Sprintf("setting %s overlaps another one and is not valid, but its error %q does not report a conflict", s.Name, st.Error))
 		}
 	}
+	c.ListOrder = nil
 	if len(vs) > 0 || len(k.Nodes) == 0 {
 		return vs, nil
 	}
